@@ -520,12 +520,15 @@ let () =
                  chk "res_class" (cls mres = cls post.res);
                  let kl (c : cache) = List.map (fun (en : entry) -> s_of_n en.ek.kid) c.ents in
                  let km = kl s' and ki = kl post.st in
-                 chkw "keyset" (List.sort compare km = List.sort compare ki);
-                 chkw "order" (List.filter (fun x -> List.mem x ki) km = List.filter (fun x -> List.mem x km) ki);
-                 chkw "ents" (noes_string s' = noes_string post.st);
-                 chkw "sizes" (sizes_string s' = sizes_string post.st);
-                 chk "cur" (Z.equal (z_of_n s'.cur) (z_of_n post.st.cur));
-                 chk "max" (Z.equal (z_of_n s'.maxs) (z_of_n post.st.maxs));
+                 (* the state a FORGOTTEN drain leaves behind is the business of the leak property (C17), not of the iterator
+                    contract (C12: "once a drain is dropped ..."): its components carry their own names *)
+                 let fg = (match p with DrainOp (_, FForget) -> "_forget" | _ -> "") in
+                 chkw ("keyset" ^ fg) (List.sort compare km = List.sort compare ki);
+                 chkw ("order" ^ fg) (List.filter (fun x -> List.mem x ki) km = List.filter (fun x -> List.mem x km) ki);
+                 chkw ("ents" ^ fg) (noes_string s' = noes_string post.st);
+                 chkw ("sizes" ^ fg) (sizes_string s' = sizes_string post.st);
+                 chk ("cur" ^ fg) (Z.equal (z_of_n s'.cur) (z_of_n post.st.cur));
+                 chk ("max" ^ fg) (Z.equal (z_of_n s'.maxs) (z_of_n post.st.maxs));
                  (* a rejected insertion must leave every observable bit as it was, pointer structure included *)
                  (match o with OInsTooLarge _ | OTryTooLarge _ | OTryWouldEject _ | OTryOccupied _ ->
                     chk "atomic" (pre.raw_ents = post.raw_ents && pre.raw_st = post.raw_st && Z.equal (z_of_n pre.st.cur) (z_of_n post.st.cur)
@@ -541,7 +544,7 @@ let () =
                  tally "hashes_eq" (Z.equal (z_of_n post.hashes) (z_of_n evs.e_hashes));
                  chk "visits" (visits_string evs.e_visits = post.visits);
                  (* B-level simulation of the same step on the pointer graph *)
-                 let abstract_ok = not (List.exists (fun c -> List.mem c ["res"; "keyset"; "order"; "ents"; "sizes"; "cur"; "max"]) !failed) in
+                 let abstract_ok = not (List.exists (fun c -> List.mem c ["res"; "keyset"; "order"; "ents"; "sizes"; "cur"; "max"; "keyset_forget"; "order_forget"; "ents_forget"; "sizes_forget"; "cur_forget"; "max_forget"]) !failed) in
                  (match (if abstract_ok then gstate_of pre else None) with
                   | None -> ()
                   | Some g0 ->
